@@ -220,6 +220,11 @@ pub fn run(run: &Run) {
             roots.push(("Custom02/non-default-scalars".into(), Node { real: Real::Sealed(f), model: m, path: std::sync::Arc::new(vec!["genesis[Custom02] relabelled at height 7 with fee_pool=123456789 fee_multiplier=70000 dosc_speed=7777777".into()]), trace: std::sync::Arc::new(vec![json!({"root": "Custom02 relabelled with non-default scalars"})]), lineage: std::sync::Arc::new(vec![h0]), salt: 0 }));
         }
     }
+    // a history in which a DoscMint raised the DOSC speed (reached honestly, not through from_block)
+    match root_with_speed_record(&scratch, NetID::Custom02) {
+        Some((n, _)) => roots.push(("Custom02/raised-dosc-speed".into(), n)),
+        None => run.outcome("speed-record-root-unavailable"),
+    }
     // epoch boundary with stakes expiring: Custom02 genesis with stakes, jumped to the last block of epoch 0 and of epoch 1
     for h in [199_998u64, 399_998] {
         let w = world(NetID::Custom02, out_t(1_000_000_000, melstructs::Denom::Mel), 1 << 30, 0, stakes_for_epochs());
